@@ -65,6 +65,10 @@ pub struct Out {
     pub failures: Vec<String>,
     pub counters: std::collections::BTreeMap<String, u64>,
     pub max_failures: usize,
+    /// the circuit of the current block has a true node directly below an or-node (or is a single true node): outside the side
+    /// condition `EnumOK` under which the Lean models of enumerate_node / sample_node are stated; such circuits are judged by
+    /// the oracle only for the request kinds that go through those functions
+    pub outside_enumok: bool,
 }
 
 fn json_str(s: &str) -> String {
@@ -94,18 +98,26 @@ impl Out {
             cases: std::io::BufWriter::new(std::fs::File::create(format!("{dir}/cases.txt")).unwrap()),
             impl_: std::io::BufWriter::new(std::fs::File::create(format!("{dir}/impl.txt")).unwrap()),
             lines: 0, evaluations: 0, distinct: HashSet::new(), samples: Vec::new(), failures: Vec::new(),
-            counters: Default::default(), max_failures: 50,
+            counters: Default::default(), max_failures: 50, outside_enumok: false,
         }
     }
     pub fn count(&mut self, key: &str, by: u64) { *self.counters.entry(key.to_string()).or_insert(0) += by; }
     /// a circuit block for the driver; `impl_line` is what the implementation claims for it
     pub fn circuit(&mut self, export: &str, impl_line: &str) {
+        {
+            let lines: Vec<&str> = export.lines().filter(|l| !l.starts_with("circuit") && *l != "end").collect();
+            let is_true = |i: usize| lines.get(i).map(|l| *l == "T").unwrap_or(false);
+            self.outside_enumok = lines.last().map(|l| *l == "T").unwrap_or(false)
+                || lines.iter().any(|l| l.starts_with("O ") && l.split_whitespace().skip(1).filter_map(|x| x.parse::<usize>().ok()).any(is_true));
+            if self.outside_enumok { self.count("circuits_outside_enumok_oracle_only_for_enum_and_sampling", 1); }
+        }
         self.cases.write_all(export.as_bytes()).unwrap();
         writeln!(self.impl_, "{}", impl_line).unwrap();
         self.lines += 1;
     }
     /// a query for the driver with the implementation's answer
     pub fn query(&mut self, kind: &str, args: &str, impl_answer: &str) {
+        if self.outside_enumok && matches!(kind, "enum" | "sample" | "enumok" | "cfgprep" | "msg" | "msgc") { return; }
         writeln!(self.cases, "q {} {}", kind, args).unwrap();
         writeln!(self.impl_, "{} {}", kind, impl_answer).unwrap();
         self.lines += 1;
